@@ -137,7 +137,9 @@ def judged (w : Which) : Op → Bool
   | .put .. | .get .. | .delete .. | .pappend .. | .plist .. | .pcontains .. | .premove .. | .listKeys .. => w == .c16
   | .acquire .. | .renew .. | .release .. => w == .c19
   | .exportKV .. => w == .c17 || w == .c19
-  | .importKV .. | .rangeKeys .. | .removeKeys .. => w == .c17
+  | .importKV .. | .removeKeys .. => w == .c17
+  -- C19 "through the DHT": the hand-off selects keys with RangeKeys; a key holding a lease must be selected
+  | .rangeKeys .. => w == .c17 || w == .c19
 
 def ringM : Nat := 2^48
 
